@@ -26,8 +26,9 @@ def run(tier):
     # all 2-way and 3-way splits, every interface
     l2, l3, l2h = (700, 260, 300) if thorough else (300, 140, 140)
     nproc = min(14, NCPU)
-    # ... under the default build, and (smaller bounds) under the optimised profile
-    for cfg, (b2, b3, b2h) in [("stable", (l2, l3, l2h)), (RELEASE, (160, 70, 80))]:
+    # ... under the default build, and (smaller bounds) under the optimised profile and under the SIMD backend (its BLAKE2b has
+    # buffering code of its own; three-way splits long enough for a short piece to cross a block boundary)
+    for cfg, (b2, b3, b2h) in [("stable", (l2, l3, l2h)), (RELEASE, (160, 70, 80)), ("simd", (200, 140, 100))]:
         binp = build_harness(cfg)
         procs = []
         for k in range(nproc):
